@@ -9,7 +9,7 @@ from ..cfg import own_exprs
 from ..facts import Fact, atoms, enumerate_paths
 from ..report import Ctx
 from ..suspend import node_suspension
-from .common import always_before, method_callers, need, node_of, stmts_matching
+from .common import always_before, expand, method_callers, need, node_of, single_defs, stmts_matching
 
 CS = "happysimulator/components/datastore/cached_store.py"
 EP = "happysimulator/components/datastore/eviction_policies.py"
@@ -662,7 +662,78 @@ def rule_serve(ctx: Ctx) -> None:
     ctx.ob("C16-5", "G7", g, "hard miss returns the fetched value", len(cn) == 1, "on a hard miss the value returned is the one just fetched")
 
 
+def rule_refresh_marker(ctx: Ctx) -> None:
+    """C16-5: a key is marked "refresh in progress" when the background refresh is scheduled and readers of an expired entry wait for it
+    (coalescing).  The handler of the refresh event therefore clears the marker on *every* way out — value found, key gone from the backing
+    store, exception from the store — else the key is never refreshed again and, past the hard TTL, every read returns nothing."""
+    prog = ctx.prog
+    he = prog.func(ST, "SoftTTLCache.handle_event")
+    ff = ctx.flow(he)
+    adds = [c for f_ in prog.module(ST).all_functions for c in calls_in(f_.node) if path_of(c.func) == "self._refreshing_keys.add"]
+    need(adds, "C16-5: nothing marks a key as being refreshed")
+    clears = [n_ for n_ in ff.cfg.nodes if n_.kind == "stmt" and any(path_of(k.func) in ("self._refreshing_keys.discard", "self._refreshing_keys.remove") for k in calls_in(n_.ast))]
+    bad = []
+    n_paths = 0
+    for p_ in enumerate_paths(ff, ff.cfg.entry):
+        if p_.decided(lambda t: t in ("event.event_type=='_sttl_refresh'", "'_sttl_refresh'==event.event_type")) is not True:
+            continue
+        n_paths += 1
+        if not any(any(nd is c_ for c_ in clears) for nd in p_.nodes):
+            bad.append(f"[{p_.describe()[:90]}] ends by {p_.end}")
+    # exceptional exits: a suspension inside the refresh branch (the backing store may raise, the process may be dropped) is covered by a
+    # `finally` that clears the marker
+    def _clears(body):
+        return any(path_of(k.func) in ("self._refreshing_keys.discard", "self._refreshing_keys.remove") for st_ in body for k in calls_in(st_))
+    branch = [s_ for s_ in walk_stmts(he.node.body) if isinstance(s_, ast.If) and "_sttl_refresh" in unparse(s_.test)]
+    uncovered = []
+    for br in branch:
+        covered = {id(y) for t_ in walk_stmts(br.body) if isinstance(t_, ast.Try) and _clears(t_.finalbody) for b_ in t_.body for y in ast.walk(b_)}
+        for y in [y for b_ in br.body for y in ast.walk(b_) if isinstance(y, (ast.Yield, ast.YieldFrom))]:
+            if id(y) not in covered:
+                uncovered.append(f"`{unparse(y)[:50]}` at line {y.lineno}")
+    ctx.ob("C16-5", "G2", he, clears[0].ast if clears else None, n_paths >= 2 and not bad and len(branch) == 1 and not uncovered, "SoftTTLCache: the refresh handler clears the in-progress marker on every exit of the "
+           "refresh branch, normal or exceptional" + ("" if not bad else " — " + bad[0]) + ("" if not uncovered else " — suspension not covered by a clearing `finally`: " + uncovered[0]))
+
+
+def rule_victim_search_attained(ctx: Ctx) -> None:
+    """C16-2: a policy's evict() must name a victim whenever it tracks a key (the cache stops evicting on None and then inserts above
+    capacity).  Where the victim is found by *searching* the tracked container for an entry equal to a threshold, the threshold is the
+    min/max of that very container at that moment — a remembered value (`self._min_count`) may no longer be attained by any entry."""
+    prog = ctx.prog
+    n = 0
+    for c in prog.module(EP).classes.values():
+        ev = c.methods.get("evict")
+        if ev is None:
+            continue
+        sd = single_defs(ev)
+        for lp in [s_ for s_ in walk_stmts(ev.node.body) if isinstance(s_, ast.For)]:
+            cont = lp.iter
+            while isinstance(cont, ast.Call) and isinstance(cont.func, ast.Attribute) and cont.func.attr in ("items", "values", "keys"):
+                cont = cont.func.value
+            cpath = path_of(cont)
+            if not cpath or not cpath.startswith("self."):
+                continue
+            for t_ in [x for b_ in lp.body for x in ast.walk(b_) if isinstance(x, ast.If)]:
+                if not any(isinstance(y, ast.Return) and y.value is not None for b2 in t_.body for y in ast.walk(b2)):
+                    continue
+                cmp_ = t_.test
+                if not (isinstance(cmp_, ast.Compare) and len(cmp_.ops) == 1 and isinstance(cmp_.ops[0], ast.Eq)):
+                    continue
+                loopvars = {y.id for y in ast.walk(lp.target) if isinstance(y, ast.Name)}
+                thr = [e_ for e_ in (cmp_.left, cmp_.comparators[0]) if not (isinstance(e_, ast.Name) and e_.id in loopvars)]
+                if len(thr) != 1:
+                    continue
+                n += 1
+                te = expand(thr[0], sd)
+                ok = isinstance(te, ast.Call) and path_of(te.func) in ("min", "max") and len(te.args) == 1 and cpath in unparse(te.args[0]) and not te.keywords
+                ctx.ob("C16-2", "G7", ev, t_, ok, f"{c.name}.evict searches `{cpath}` for an entry equal to `{unparse(te)[:60]}`: the threshold is the min/max of the container being searched, "
+                       "so a non-empty container always yields a victim")
+    need(n >= 1, "C16-2: no threshold search found in any eviction policy (LFU expected)")
+
+
 def run(ctx: Ctx) -> None:
+    ctx.guarded(rule_victim_search_attained)
+    ctx.guarded(rule_refresh_marker)
     rule_capacity(ctx)
     rule_pairing(ctx)
     rule_dirty(ctx)
@@ -673,6 +744,9 @@ def run(ctx: Ctx) -> None:
 
 
 MUTANTS = [
+    ("lfu-evict-trusts-remembered-minimum", EP, "        min_count = min(self._counts.values())\n", "        min_count = self._min_count or min(self._counts.values())\n", "C16-2"),
+    ("softttl-marker-kept-when-key-gone", ST, '            try:\n                value = yield from self._backing_store.get(key)\n                if value is not None:\n                    self._store(key, value)\n                    self._refresh_successes += 1\n            finally:\n                self._refreshing_keys.discard(key)\n', '            value = yield from self._backing_store.get(key)\n            if value is None:\n                return None\n            self._store(key, value)\n            self._refresh_successes += 1\n            self._refreshing_keys.discard(key)\n', "C16-5"),
+    ("softttl-marker-kept-on-store-error", ST, '            try:\n                value = yield from self._backing_store.get(key)\n                if value is not None:\n                    self._store(key, value)\n                    self._refresh_successes += 1\n            finally:\n                self._refreshing_keys.discard(key)\n', '            value = yield from self._backing_store.get(key)\n            if value is not None:\n                self._store(key, value)\n                self._refresh_successes += 1\n            self._refreshing_keys.discard(key)\n', "C16-5"),
     ("readahead-overwrites-cached-page", PC, "                if ahead_id not in self._pages and len(self._pages) < self._capacity:\n                    self._pages[ahead_id]", "                if len(self._pages) < self._capacity:\n                    self._pages[ahead_id]", "C16-3"),
     # capacity
     ("cachedstore-evict-off-by-one", CS, "            while len(self._cache) >= self._cache_capacity:", "            while len(self._cache) > self._cache_capacity:", "C16-1"),
